@@ -7,7 +7,6 @@ import (
 	"io"
 	"net"
 
-	"github.com/xelaj/go-dry/ioutil"
 
 	"github.com/xelaj/mtproto/internal/mode"
 	"github.com/xelaj/mtproto/internal/verifrt"
@@ -100,8 +99,16 @@ func H_C08_segmented(variant, k, maxw, seg int) {
 		src.wrote = append(src.wrote, b...)
 		return len(b), nil
 	})
+	// the connection object is built by the library's own constructor (whatever fields it has are set up the
+	// way the library sets them up); only name resolution and the dial are replaced
 	tcp := new(net.TCPConn)
-	conn := &tcpConn{cancelReader: ioutil.NewCancelableReader(context.Background(), tcp), conn: tcp}
+	verifrt.Hook("net.ResolveTCPAddr", func(network, address string) (*net.TCPAddr, error) { return &net.TCPAddr{Port: 443}, nil })
+	verifrt.Hook("net.DialTCP", func(network string, laddr, raddr *net.TCPAddr) (*net.TCPConn, error) { return tcp, nil })
+	conn, cerr := NewTCP(TCPConnConfig{Ctx: context.Background(), Host: "10.0.0.1:443"})
+	verifrt.Assert(cerr == nil && conn != nil, "segmented-connection-set-up")
+	if cerr != nil || conn == nil {
+		return
+	}
 	var m Mode
 	var err error
 	crashed := verifrt.Catch(func() {
